@@ -83,6 +83,25 @@ NEEDS = {
     "C17d": "an undecodable complete line or a stream cut inside a multi-byte character: TransportReadError's constructor decodes the partial bytes (exceptions.py)",
     "C18d": "an MQTT payload containing a line-boundary character (newline, U+2028, \\x1c ...): MessageSchema.to_dict now takes the first of splitlines()",
     "C19d": "I_LOG_MESSAGE / I_GATEWAY_READY with a child id other than 255: NODE_ID_REQUEST_TYPES was widened in protocol_14 only, the newer modules keep their own copies",
+    # fifth round: the change had to exploit a Python subtlety or a boundary value
+    "C01e": "a payload with leading whitespace: to_dict strips every field (int() tolerates padding, the payload does not)",
+    "C02e": "child id 255 spelled other than '255' ('0255', '+255', ' 255', '2_55') with command set/req: CommandField compares the raw text with '255', ChildIdField parses it",
+    "C03e": "a known node and a battery payload that parses to NaN (same change as C03b, found independently)",
+    "C04e": "a child presented a second time: add_child uses dict.setdefault, whose default is built eagerly and thrown away when the key exists",
+    "C05e": "an empty version report: the setter selects get_protocol(value or DEFAULT), '' is falsy, the report is accepted and resets the rules to 1.4",
+    "C06e": "version unknown and a presentation/set/req whose type number is 9 or 14: the exemption set holds IntEnum members, which equal plain ints of other enums, and the command check was dropped",
+    "C07e": "a sleeping destination and a set payload that ends in whitespace: send() now re-loads its own dump (rstrip) and parks the re-loaded copy",
+    "C08e": "two or more buffered commands and one failing write: the release writes them with asyncio.gather, which re-raises at once without the pops, so the written ones are released again",
+    "C09e": "a send for the key whose write is in flight: the parked message is refreshed in place through dict.setdefault (aliasing), the identity guard still holds (same idea as the first C09 seed)",
+    "C10e": "an outstanding request and a presentation of child id 0: the marker key is built with `child_id or 255`, 0 is falsy, the child presentation clears the node's marker",
+    "C11e": "a registry whose highest id is exactly 253: `next_id not in range(1, MAX_NODE_ID)` excludes 254 (exclusive end)",
+    "C12e": "a set for a sleeping node whose ack differs from its type: the parked copy is built with message_type and ack swapped positionally (both ints)",
+    "C13e": "a child value that is the empty string (a set with an empty payload): the legacy hook filters the values with `if value`",
+    "C14e": "a top-level key that str.isdigit() accepts and int() rejects ('²', '①'): load sorts the records with a key function that raises ValueError",
+    "C16e": "the body's task is cancelled while the saver is inside a save: cancel_save re-raises CancelledError when current_task().cancelling(), stop() never reaches the final save",
+    "C17e": "a complete line that is not valid UTF-8: `getattr(err, 'object', err.partial)` evaluates its default eagerly, UnicodeDecodeError has no .partial",
+    "C18e": "an MQTT payload containing a line-boundary character (U+2028, \\x0c, \\x1c ...): _parse_message_to_mqtt takes the first of splitlines()",
+    "C19e": "a node presentation with an empty payload: the shared 1.4 handler stores `payload or gateway.protocol.VERSION`, so the registry depends on the version",
     "C19b": "a child of type S_HEATER / S_CUSTOM and a set whose value type the 1.4 table lists for it but newer tables do not (or vice versa): shared handle_set consults the per-version table",
 }
 
